@@ -240,8 +240,27 @@ def replan_fresh(own_k: bool, anc1_k: bool, anc2_k: bool, anc1_l: bool, anc2_l: 
                 anc2["l"] = ["p2"]
             repo.a = anc2
         pl._plan_stage(st)
+        # third iteration: the ancestors publish the iteration-3 values (same presence as in iteration 2)
         with hx.native():
-            c = st.context
+            mid = dict(st.context)
+            st.outputs = {"o": 2}
+        reset_stage_for_retry(st)
+        with hx.native():
+            anc3 = {"x": "it3"}
+            if a2:
+                anc3["k"] = "it3"
+            if l2:
+                anc3["l"] = ["p3"]
+            repo.a = anc3
+        pl._plan_stage(st)
+        with hx.native():
+            c3 = st.context
+            if c3.get("x") != "it3" or c3.get("k") != ("own" if ok else ("it3" if a2 else None)):
+                P.reached((ok, a1, a2, l1, l2, tw, "it3"))
+                return P.fail("C16/replan/stale_value_of_previous_iteration", {"iteration": 3, "own_k": ok, "context": {k_: c3.get(k_) for k_ in ("k", "x")}})
+            if c3.get("own_only") != 1 or (tw and c3.get("mine") != "written-by-own-task"):
+                return P.fail("C16/replan/own_context_lost", {"iteration": 3})
+            c = mid
             P.reached((ok, a1, a2, l1, l2, tw))
             info = {"own_k": ok, "ancestor_k_iteration1": a1, "ancestor_k_iteration2": a2, "context": {k: c.get(k) for k in ("k", "l", "x", "own_only", "mine")}}
             if c.get("x") != "it2":
@@ -318,7 +337,7 @@ META = {
                   "src/stabilize/reducers.py:apply_output_reducers + built-in reducers sum/max/min/collect/extend/merge"],
     "bounds": ["ancestor merge: every DAG on 4 stages x which of the first three publish a scalar key x which publish a list key; one unrelated stage always publishes both",
                "planner merge: own/ancestor presence of a scalar and a list key, reducer on/off, which of two upstream branches publish the reduced key",
-               "re-planning after a jump_to re-arm: presence of the key in own context / in the ancestors' outputs of iteration 1 / of iteration 2, own task write in between",
+               "re-planning after a jump_to re-arm (three plannings = three loop iterations): presence of the key in own context / in the ancestors' outputs of iteration 1 / of iteration 2, own task write in between",
                "reducers: 3 branches with symbolic integer values in [-3,3], every subset present, every permutation"],
     "stubs": ["sqlite3.Connection replaced by a row provider for the single SELECT of get_merged_ancestor_outputs", "repository replaced by a 3-method stub for _plan_stage", "ids: ULID() replaced by a counter"],
     "assumptions": ["only path-ordered keys are asserted for the scalar merge: when two publishing ancestors are unrelated either may win (as the property says)"],
